@@ -202,39 +202,70 @@ def visibility_cases():
     return out
 
 
+IMPORTERS = ("main", "dep_chain", "dep_diamond_mid_first", "dep_diamond_lib_first")
+
+
 def run_visibility(out):
     """collide: another loaded module (`other.incn`, imported for an unrelated name) declares a *pub* item of the same name
-    as the private item of `lib` - the verdict about `lib`'s item must not depend on it."""
+    as the private item of `lib` - the verdict about `lib`'s item must not depend on it.
+    importer: the importing file is the entry file, or a dependency module `mid` (the entry imports `mid` only = chain;
+    or `mid` and `lib` in either order = diamond)."""
     base = os.path.join(ROOT, "vis")
     n = 0
     ok = set()
     env = {"PATH": os.environ.get("PATH", ""), "RUST_LOG": "off"}
+    jobs = []
     for kind, form, libpath, decl, main in visibility_cases():
         for collide in (False, True):
-            res = {}
-            main_text = ("from other import unrelated\n" + main) if collide else main
-            for vis in ("private", "pub"):
-                d = os.path.join(base, f"{kind}_{form}_{vis}_{int(collide)}")
-                shutil.rmtree(d, ignore_errors=True)
-                os.makedirs(os.path.dirname(os.path.join(d, libpath)), exist_ok=True)
-                text = ("pub " + decl if vis == "pub" else decl) + "\n\npub def other() -> int:\n    return 0\n"
-                open(os.path.join(d, libpath), "w").write(text)
-                if collide:
-                    open(os.path.join(d, "other.incn"), "w").write("pub " + decl + "\n\npub def unrelated() -> int:\n    return 0\n")
-                open(os.path.join(d, "main.incn"), "w").write(main_text)
-                p = subprocess.run([common.INCAN, "--no-banner", "--color", "never", "--check", "main.incn"], cwd=d, capture_output=True, text=True, timeout=60, env=env)
-                res[vis] = (p.returncode, (p.stdout + p.stderr)[-400:])
-                n += 1
-            if res["pub"][0] != 0:
-                continue  # the twin does not check on this tree: position unusable
-            tag = f"kind:{kind}|form:{form}" + ("|same-name-pub-in-another-module" if collide else "")
-            case = {"kind": kind, "form": form, "lib": decl, "main": main_text, "other_module_declares_pub_item_of_same_name": collide}
-            if res["private"][0] == 0:
-                out.fail(f"private-item-usable|{tag}", {**case, "check_output": res["private"][1]})
-            elif res["private"][0] != 1:
-                out.fail(f"check-abnormal-exit|{tag}", {**case, "exit": res["private"][0], "output": res["private"][1]})
+            for importer in IMPORTERS:
+                if importer != "main" and (collide or form not in ("from_import", "import_item")):
+                    continue
+                jobs.append((kind, form, libpath, decl, main, collide, importer))
+
+    def run_one(job):
+        kind, form, libpath, decl, main, collide, importer = job
+        res = {}
+        main_text = ("from other import unrelated\n" + main) if collide else main
+        files_for = {}
+        for vis in ("private", "pub"):
+            d = os.path.join(base, f"{kind}_{form}_{vis}_{int(collide)}_{importer}")
+            shutil.rmtree(d, ignore_errors=True)
+            os.makedirs(os.path.dirname(os.path.join(d, libpath)), exist_ok=True)
+            text = ("pub " + decl if vis == "pub" else decl) + "\n\npub def other() -> int:\n    return 0\n"
+            files = {libpath: text}
+            if collide:
+                files["other.incn"] = "pub " + decl + "\n\npub def unrelated() -> int:\n    return 0\n"
+            if importer == "main":
+                files["main.incn"] = main_text
             else:
-                ok.add(("visibility", kind, form, collide))
+                # the importing code moves into mid.incn: `def main()` becomes `pub def mid_entry()`
+                files["mid.incn"] = main_text.replace("def main() -> None:", "pub def mid_entry() -> None:")
+                lines = {"dep_chain": ["from mid import mid_entry"], "dep_diamond_mid_first": ["from mid import mid_entry", "from lib import other"], "dep_diamond_lib_first": ["from lib import other", "from mid import mid_entry"]}[importer]
+                files["main.incn"] = "\n".join(lines) + "\n\n\ndef main() -> None:\n    mid_entry()\n"
+            for rel, t in files.items():
+                os.makedirs(os.path.dirname(os.path.join(d, rel)), exist_ok=True)
+                open(os.path.join(d, rel), "w").write(t)
+            p = subprocess.run([common.INCAN, "--no-banner", "--color", "never", "--check", "main.incn"], cwd=d, capture_output=True, text=True, timeout=60, env=env)
+            res[vis] = (p.returncode, (p.stdout + p.stderr)[-400:])
+            files_for[vis] = files
+        return job, res, files_for["private"]
+
+    from multiprocessing.pool import ThreadPool
+
+    with ThreadPool(common.NCPU) as pool:
+        results = pool.map(run_one, jobs)
+    for (kind, form, libpath, decl, main, collide, importer), res, files in results:
+        n += 2
+        if res["pub"][0] != 0:
+            continue  # the twin does not check on this tree: position unusable
+        tag = f"kind:{kind}|form:{form}" + ("|same-name-pub-in-another-module" if collide else "") + (f"|importer:{importer}" if importer != "main" else "")
+        case = {"kind": kind, "form": form, "lib": decl, "main": files.get("main.incn"), "files": files, "other_module_declares_pub_item_of_same_name": collide, "importer": importer}
+        if res["private"][0] == 0:
+            out.fail(f"private-item-usable|{tag}", {**case, "check_output": res["private"][1]})
+        elif res["private"][0] != 1:
+            out.fail(f"check-abnormal-exit|{tag}", {**case, "exit": res["private"][0], "output": res["private"][1]})
+        else:
+            ok.add(("visibility", kind, form, collide, importer))
     # private items named like builtins (the symbol table already holds a public definition of that name)
     for name, decl, use in [("len", "def len(x: int) -> int:\n    return x\n", "println(len(3))"), ("Option", "def Option(x: int) -> int:\n    return x\n", "println(Option(3))"),
                             ("print", "def print(x: int) -> int:\n    return x\n", "println(print(3))"), ("range", "def range(x: int) -> int:\n    return x\n", "println(range(3))")]:
@@ -334,7 +365,7 @@ def run(tier):
         "distinct_nontrivial": len(agree) + len(vis_ok) + len(g_ok),
         "rule": "resolution: project trees (all 12 candidate files for module m; each candidate alone; extension / file-vs-directory conflicts; none) x importer location "
         "(root, d/, d/e/) x 16 import spellings (import / from, :: and . paths, .., super, crate, aliases, item imports), plus the same spellings inside a transitively imported "
-        "module; visibility: 7 item kinds x 6 import forms with pub/non-pub twins through `incan --check`, each also with another loaded module declaring a pub item of the same name, plus private functions named like 4 builtins; graphs: import graphs on 3 files (quick: a fifth + all with <= 2 "
+        "module; visibility: 7 item kinds x 6 import forms with pub/non-pub twins through `incan --check`, each also with another loaded module declaring a pub item of the same name, plus private functions named like 4 builtins; the `from` / `import ::` forms also with the importing code in a dependency module (chain, and diamond in both import orders); graphs: import graphs on 3 files (quick: a fifth + all with <= 2 "
         "edges; thorough: all 512) through --check and --emit-rust, and 4 missing-module spellings; non-trivial = cases where CLI and language server agree / twins behave / graph terminated normally",
         "samples": [{"tree": "all_candidates", "entry": "in_d", "spelling": "from_parent_m"}, {"visibility": ["model", "from_import"]}, {"graph_edges": [["a", "b"], ["b", "a"]]}],
         "exhaustive": True,
